@@ -1,2 +1,197 @@
-// harness site: src/catch/attributes.rs
+// harness site: src/catch/attributes.rs  (C14: catch object counting, regular vs gradual)
 #![allow(dead_code, unused_imports, clippy::all, clippy::pedantic)]
+
+use super::*;
+use crate::verif_harness::common::verif_replay_table;
+
+/// Stub for `ObjectCountBuilder::new_gradual`: identical except for the pre-allocated capacity
+/// (8 instead of 512 entries) — a 4 KiB symbolic heap object per instance is what exhausts the
+/// SAT back end, and capacity has no observable effect.
+fn new_gradual_small() -> ObjectCountBuilder {
+    ObjectCountBuilder::Gradual {
+        count: GradualObjectCount::default(),
+        all: Vec::with_capacity(8),
+    }
+}
+
+#[derive(Clone, Copy)]
+struct Event {
+    kind: u8, // 0 fruit, 1 droplet, 2 tiny droplets
+    n: u32,
+}
+
+fn run_regular<const K: usize>(ev: &[Event; K], take: usize) -> ObjectCount {
+    let mut b = ObjectCountBuilder::new_regular(take);
+    for e in ev.iter() {
+        match e.kind {
+            0 => b.record_fruit(),
+            1 => b.record_droplet(),
+            _ => b.record_tiny_droplets(e.n),
+        }
+    }
+    b.into_regular()
+}
+
+/// Every event sequence of length K over {fruit, droplet, tiny(n)} and every `take`:
+/// the one-shot count equals the sum of the first `take` gradual deltas, is monotone in `take`,
+/// and any `take` at or above the number of fruits+droplets equals not limiting at all.
+///
+/// Which events are tiny-droplet events is fixed by the concrete bit set TINY (so the number of
+/// `Vec::push` calls is a constant — a symbolic push count exhausts memory); whether a palpable
+/// event is a fruit or a droplet, the tiny counts and `take` stay symbolic. The proof harnesses
+/// enumerate every TINY pattern.
+fn count_builder<const K: usize, const TINY: u32>() {
+    let mut ev = [Event { kind: 0, n: 0 }; K];
+    let mut n_palpable = 0usize;
+    for i in 0..K {
+        let n: u32 = kani::any();
+        kani::assume(n <= 1000);
+        let kind = if TINY & (1 << i) != 0 {
+            2
+        } else {
+            n_palpable += 1;
+            u8::from(kani::any::<bool>())
+        };
+        ev[i] = Event { kind, n };
+    }
+    let take: usize = kani::any();
+
+    let reg = run_regular(&ev, take);
+
+    // gradual deltas
+    let mut g = ObjectCountBuilder::new_gradual();
+    for e in ev.iter() {
+        match e.kind {
+            0 => g.record_fruit(),
+            1 => g.record_droplet(),
+            _ => g.record_tiny_droplets(e.n),
+        }
+    }
+    let all = g.into_gradual();
+    assert!(all.len() == n_palpable, "C14 catch: one gradual delta per fruit/droplet");
+
+    let mut acc = CatchDifficultyAttributes::default();
+    let upto = core::cmp::min(take, all.len());
+    for (i, d) in all.iter().enumerate() {
+        if i < upto {
+            acc.add_object_count(*d);
+        }
+    }
+    let mut one_shot = CatchDifficultyAttributes::default();
+    one_shot.set_object_count(&reg);
+
+    assert!(one_shot.n_fruits == acc.n_fruits, "C14 catch: one-shot fruits == sum of gradual deltas");
+    assert!(one_shot.n_droplets == acc.n_droplets, "C14 catch: one-shot droplets == sum of gradual deltas");
+    assert!(one_shot.n_tiny_droplets == acc.n_tiny_droplets, "C14 catch: one-shot tiny droplets == sum of gradual deltas");
+    assert!((one_shot.n_fruits + one_shot.n_droplets) as usize == upto, "C14 catch: counted amount is min(n, total)");
+
+    // monotone in take
+    let take2: usize = kani::any();
+    kani::assume(take2 >= take);
+    let reg2 = run_regular(&ev, take2);
+    assert!(reg2.fruits >= reg.fruits && reg2.droplets >= reg.droplets && reg2.tiny_droplets >= reg.tiny_droplets,
+        "C14 catch: counts never decrease as n grows");
+
+    // above the total == unlimited
+    if take >= n_palpable {
+        let unl = run_regular(&ev, usize::MAX);
+        assert!(unl.fruits == reg.fruits && unl.droplets == reg.droplets && unl.tiny_droplets == reg.tiny_droplets,
+            "C14 catch: n above the total equals not limiting");
+    }
+
+    kani::cover!(take < n_palpable || n_palpable == 0, "limited (or nothing to limit)");
+    kani::cover!(take >= n_palpable, "unlimited");
+    core::mem::forget(all);
+}
+
+// Reachability precondition: tiny droplets are only recorded between two events of one juice
+// stream, whose last event is its tail fruit (catch/object/juice_stream.rs), so an event
+// sequence never *ends* with tiny droplets: only TINY patterns with bit K-1 clear are run.
+// (With trailing tiny droplets the one-shot count with take > #palpable would include them and
+// the gradual sum would not — unreachable, hence excluded rather than reported.)
+
+#[kani::proof]
+#[kani::stub(ObjectCountBuilder::new_gradual, new_gradual_small)]
+#[kani::unwind(6)]
+pub fn c14_catch_count_builder_k3() {
+    count_builder::<3, 0>();
+    count_builder::<3, 1>();
+    count_builder::<3, 2>();
+    count_builder::<3, 3>();
+}
+
+#[kani::proof]
+#[kani::stub(ObjectCountBuilder::new_gradual, new_gradual_small)]
+#[kani::unwind(7)]
+pub fn c14_catch_count_builder_k4_m0() {
+    count_builder::<4, 0>();
+    count_builder::<4, 1>();
+}
+
+#[kani::proof]
+#[kani::stub(ObjectCountBuilder::new_gradual, new_gradual_small)]
+#[kani::unwind(7)]
+pub fn c14_catch_count_builder_k4_m2() {
+    count_builder::<4, 2>();
+    count_builder::<4, 3>();
+}
+
+#[kani::proof]
+#[kani::stub(ObjectCountBuilder::new_gradual, new_gradual_small)]
+#[kani::unwind(7)]
+pub fn c14_catch_count_builder_k4_m4() {
+    count_builder::<4, 4>();
+    count_builder::<4, 5>();
+}
+
+#[kani::proof]
+#[kani::stub(ObjectCountBuilder::new_gradual, new_gradual_small)]
+#[kani::unwind(7)]
+pub fn c14_catch_count_builder_k4_m6() {
+    count_builder::<4, 6>();
+    count_builder::<4, 7>();
+}
+
+#[kani::proof]
+#[kani::stub(ObjectCountBuilder::new_gradual, new_gradual_small)]
+#[kani::unwind(8)]
+pub fn c14_catch_count_builder_k5_m06() {
+    count_builder::<5, 6>();
+    count_builder::<5, 7>();
+}
+
+#[kani::proof]
+#[kani::stub(ObjectCountBuilder::new_gradual, new_gradual_small)]
+#[kani::unwind(8)]
+pub fn c14_catch_count_builder_k5_m10() {
+    count_builder::<5, 10>();
+    count_builder::<5, 11>();
+}
+
+#[kani::proof]
+#[kani::stub(ObjectCountBuilder::new_gradual, new_gradual_small)]
+#[kani::unwind(8)]
+pub fn c14_catch_count_builder_k5_m12() {
+    count_builder::<5, 12>();
+    count_builder::<5, 13>();
+}
+
+#[kani::proof]
+#[kani::stub(ObjectCountBuilder::new_gradual, new_gradual_small)]
+#[kani::unwind(8)]
+pub fn c14_catch_count_builder_k5_m14() {
+    count_builder::<5, 14>();
+    count_builder::<5, 15>();
+}
+
+verif_replay_table!(verif_replay_catch_attrs;
+    c14_catch_count_builder_k3,
+    c14_catch_count_builder_k4_m0,
+    c14_catch_count_builder_k4_m2,
+    c14_catch_count_builder_k4_m4,
+    c14_catch_count_builder_k4_m6,
+    c14_catch_count_builder_k5_m06,
+    c14_catch_count_builder_k5_m10,
+    c14_catch_count_builder_k5_m12,
+    c14_catch_count_builder_k5_m14,
+);
